@@ -1,9 +1,166 @@
-(** C13 — exported statements only. *)
+(** C13 — inflation mints exactly the scheduled amount and distributes all of it.
+    This file holds only the exported statements (model: Model.v; schedule, [Consistent], [hist_ok]: Spec.v). *)
 From Coq Require Import ZArith List Bool.
 Import ListNotations.
-Require Import Nib.Lib.Dec Nib.C13.Model Nib.C13.Spec Nib.C13.Check Nib.C13.Proofs.
+Require Import Nib.Lib.Dec Nib.C13.Model Nib.C13.Spec Nib.C13.Check Nib.C13.Arith Nib.C13.Proofs.
 Local Open Scope Z_scope.
 
+(** THE PROPERTY.  From every consistent state, over every history of day-epoch ends with consecutive numbers,
+    toggles (by anybody), parameter edits that keep EpochsPerPeriod / MaxPeriod and other identifiers' epoch ends,
+    the effects of the code, op by op — supply change, fee collector / community pool / sudo root changes, module
+    balance afterwards, CurrentPeriod afterwards, no panic — are those of the closed-form schedule [spec_run]:
+    the (c+1)-th enabled day epoch mints floor(polynomial(p)*10^6/EPP) with p = floor(c/EPP), nothing once p reaches
+    MaxPeriod; disabled epochs mint nothing and leave c alone; staking and community receive the floors of their
+    proportions, the strategic reserve the remainder, the module account is left empty; CurrentPeriod = min(c/EPP, MaxPeriod).
+    The final state is consistent again.  [zp] = whether a positive provision below one unibi panics on the tree
+    (probed by the driver); if it does, [hist_ok] asks for provisions of at least one unibi. *)
+Theorem C13_period_tracks_schedule :
+  forall (zp : bool) (ops : list op) (s : st) (e : Z),
+    let p := s_params s in
+    Consistent s e -> s_module s = 0 -> 0 <= peek (s_skipped s) -> small (p_epp p) (p_max p) ->
+    hist_ok zp (p_epp p) (p_max p) p (n_of s e - 1) e ops ->
+    map view_of (snd (run zp s ops)) = snd (spec_run {| q_params := p; q_c := n_of s e - 1 |} ops) /\
+    exists e', Consistent (fst (run zp s ops)) e' /\
+               fst (spec_run {| q_params := p; q_c := n_of s e - 1 |} ops) =
+               {| q_params := s_params (fst (run zp s ops)); q_c := n_of (fst (run zp s ops)) e' - 1 |}.
+Proof. exact period_tracks_schedule. Qed.
+Print Assumptions C13_period_tracks_schedule.
+
+(** The schedule position is the number of day epochs that ended while inflation was enabled. *)
+Theorem C13_schedule_position_counts_enabled_epochs :
+  forall (ops : list op) (p : params) (c : Z),
+    q_c (fst (spec_run {| q_params := p; q_c := c |} ops)) = c + enabled_days p ops.
+Proof. exact spec_position. Qed.
+Print Assumptions C13_schedule_position_counts_enabled_epochs.
+
+(** "The polynomial is positive below MaxPeriod" implies the pointwise hypothesis used in [hist_ok]. *)
+Theorem C13_positive_polynomial_suffices :
+  forall (zp : bool) (p : params) (c : Z), poly_ok zp p -> 0 < p_epp p -> 0 <= c -> prov_ok zp p c.
+Proof. exact poly_ok_prov_ok. Qed.
+Print Assumptions C13_positive_polynomial_suffices.
+
+(** A new chain (period 0, skipped 0, never started) is consistent at day epoch 1 … *)
+Theorem C13_genesis_consistent :
+  forall s : st,
+    p_started (s_params s) = false -> p_enabled (s_params s) = false ->
+    peek (s_period s) = 0 -> peek (s_skipped s) = 0 -> 0 <= p_max (s_params s) -> 0 < p_epp (s_params s) ->
+    Consistent s 1.
+Proof. exact genesis_consistent. Qed.
+Print Assumptions C13_genesis_consistent.
+
+(** … and a module that never started becomes consistent with the first day epoch that ends while it is
+    disabled, whatever its skipped counter and the epoch number were. *)
+Theorem C13_fresh_start_consistent :
+  forall (zp : bool) (s : st) (e : Z),
+    p_started (s_params s) = false -> p_enabled (s_params s) = false -> peek (s_period s) = 0 ->
+    0 <= p_max (s_params s) -> 0 < p_epp (s_params s) ->
+    Consistent (fst (after_epoch_end zp s true e)) (e + 1).
+Proof. exact fresh_start_consistent. Qed.
+Print Assumptions C13_fresh_start_consistent.
+
+(** Epochs while disabled mint nothing, move nothing, and do not advance the schedule. *)
+Theorem C13_disabled_epochs_mint_nothing_and_do_not_advance :
+  forall (zp : bool) (s : st) (e : Z),
+    p_enabled (s_params s) = false -> 0 <= peek (s_skipped s) < two64 - 1 ->
+    let s' := fst (after_epoch_end zp s true e) in
+    let x := snd (after_epoch_end zp s true e) in
+    o_minted x = 0 /\ o_staking x = 0 /\ o_community x = 0 /\ o_strategic x = 0 /\ o_panic x = false /\
+    s_module s' = s_module s /\ s_period s' = s_period s /\ s_params s' = s_params s /\
+    (p_started (s_params s) = true -> n_of s' (e + 1) = n_of s e) /\
+    (p_started (s_params s) = false -> n_of s' (e + 1) = 1).
+Proof. exact disabled_epochs_mint_nothing. Qed.
+Print Assumptions C13_disabled_epochs_mint_nothing_and_do_not_advance.
+
+(** Everything minted is distributed in the same call, in ANY state with valid proportions (consistent or not):
+    staking = floor(minted * p_staking), community = floor(minted * p_community), strategic = the remainder
+    (plus whatever lay in the module account), module account empty. *)
+Theorem C13_all_distributed :
+  forall (zp : bool) (s : st) (e : Z),
+    dist_ok (s_params s) -> 0 <= s_module s ->
+    let x := snd (after_epoch_end zp s true e) in
+    0 <= o_minted x /\
+    (0 < o_minted x ->
+       o_staking x + o_community x + o_strategic x = o_minted x + s_module s /\ o_module x = 0 /\
+       o_staking x = o_minted x * p_staking (s_params s) / PREC /\
+       o_community x = o_minted x * p_community (s_params s) / PREC) /\
+    (o_minted x = 0 -> o_staking x = 0 /\ o_community x = 0 /\ o_strategic x = 0 /\ o_module x = s_module s).
+Proof. exact all_distributed. Qed.
+Print Assumptions C13_all_distributed.
+
+(** The roll-over test on uint64 / int64 is the integer comparison when nothing exceeds 2^62. *)
+Theorem C13_rollover_test_without_wraparound :
+  forall e E per k : Z,
+    0 <= e < two62 -> 0 <= k < two62 -> 0 < E < two62 -> 0 <= E * per < two62 ->
+    rollover e E per k = (E <=? e - E * per - k).
+Proof. exact rollover_small. Qed.
+Print Assumptions C13_rollover_test_without_wraparound.
+
+(** Inconsistent genesis, period behind the schedule: every enabled epoch mints the amount of the LAGGING period
+    and advances the period by one; the lag never grows. *)
+Theorem C13_inconsistent_genesis_catches_up :
+  forall (zp : bool) (s : st) (e : Z),
+    let p := s_params s in let per := peek (s_period s) in let n := n_of s e in
+    p_enabled p = true -> dist_ok p -> s_module s = 0 ->
+    0 < p_epp p < two62 -> 0 <= per < p_max p -> 0 <= p_epp p * per < two62 -> 0 <= e < two62 ->
+    0 <= peek (s_skipped s) < two62 -> PREC <= poly_provision p per ->
+    per < (n - 1) / p_epp p ->
+    let s' := fst (after_epoch_end zp s true e) in
+    o_minted (snd (after_epoch_end zp s true e)) = truncate_int (poly_provision p per) /\
+    peek (s_period s') = per + 1 /\
+    (n_of s' (e + 1) - 1) / p_epp p - peek (s_period s') <= (n - 1) / p_epp p - per.
+Proof. exact behind_catches_up. Qed.
+Print Assumptions C13_inconsistent_genesis_catches_up.
+
+(** Inconsistent genesis, period ahead of the schedule: the period waits (and its amount keeps being minted). *)
+Theorem C13_period_ahead_of_schedule_waits :
+  forall (zp : bool) (s : st) (e : Z),
+    let p := s_params s in let per := peek (s_period s) in let n := n_of s e in
+    p_enabled p = true -> dist_ok p -> s_module s = 0 ->
+    0 < p_epp p < two62 -> 0 <= per < p_max p -> 0 <= p_epp p * per < two62 -> 0 <= e < two62 ->
+    0 <= peek (s_skipped s) < two62 -> PREC <= poly_provision p per ->
+    (n - 1) / p_epp p < per -> 1 <= n ->
+    o_minted (snd (after_epoch_end zp s true e)) = truncate_int (poly_provision p per) /\
+    peek (s_period (fst (after_epoch_end zp s true e))) = per.
+Proof. exact ahead_waits. Qed.
+Print Assumptions C13_period_ahead_of_schedule_waits.
+
+(** The quantifier of the property allows any genesis counters; the closed form is FALSE for an inconsistent one
+    (a started chain imported with zeroed counters at day epoch 7 mints the amount of period 0 instead of period 3). *)
+Theorem C13_closed_form_refuted_for_inconsistent_genesis :
+  exists s e, dist_ok (s_params s) /\ poly_unit (s_params s) /\ s_module s = 0 /\
+              p_started (s_params s) = true /\ ~ Consistent s e /\
+              o_minted (snd (after_epoch_end true s true e)) <> sched_mint (s_params s) (n_of s e - 1).
+Proof. exact closed_form_refuted_for_inconsistent_genesis. Qed.
+Print Assumptions C13_closed_form_refuted_for_inconsistent_genesis.
+
+(** … and for a never-started module that is switched on before any day epoch ended while the epoch counter is
+    ahead of the skipped counter (periods roll over after every epoch instead of every second one). *)
+Theorem C13_first_enable_without_a_disabled_epoch_refuted :
+  exists s e, p_started (s_params s) = false /\ p_enabled (s_params s) = false /\ peek (s_period s) = 0 /\
+    let s1 := fst (step true s (Toggle true true)) in
+    ~ Consistent s1 e /\
+    map o_period (snd (run true s1 [EpochEnd true 7; EpochEnd true 8; EpochEnd true 9; EpochEnd true 10])) = [1; 2; 3; 4].
+Proof. exact first_enable_without_a_disabled_epoch_refuted. Qed.
+Print Assumptions C13_first_enable_without_a_disabled_epoch_refuted.
+
+(** FINDING (reported; the statement holds for the model of the pinned tree, [zp] = true as the driver's probe
+    reports): a polynomial that is positive below MaxPeriod but yields less than one unibi per epoch makes the
+    epoch hook panic in a consistent state — in BeginBlock this halts the chain. *)
+Theorem C13_sub_unit_provision_panics :
+  exists s e, Consistent s e /\ dist_ok (s_params s) /\ poly_pos (s_params s) /\ s_module s = 0 /\
+              o_panic (snd (after_epoch_end true s true e)) = true.
+Proof. exact sub_unit_provision_panics. Qed.
+Print Assumptions C13_sub_unit_provision_panics.
+
+(** The boolean checker evaluated on implementation traces is sound for the schedule predicate … *)
 Theorem C13_checker_sound : forall q tr, Pb_trace q tr = true -> P_trace q tr.
 Proof. exact Pb_trace_sound. Qed.
 Print Assumptions C13_checker_sound.
+
+(** … and wherever the check evaluates it ([pre]), the case lies inside the hypotheses of the main theorem, so the
+    model's own trace of that case satisfies it. *)
+Theorem C13_check_precondition_sound :
+  forall c : case, pre c = true ->
+    P_trace (start_q c) (combine (map fst (c_tr c)) (snd (run (c_zp c) (c_init c) (map fst (c_tr c))))).
+Proof. exact pre_sound. Qed.
+Print Assumptions C13_check_precondition_sound.
